@@ -282,3 +282,30 @@ SPECS["C12"] = {
          "limits": {"quick": {"timeout": "600s"}, "thorough": {"timeout": "600s"}}},
     ],
 }
+
+
+SPECS["C10"] = {
+    "explanation": "The real TagHandler (NewTagHandler, DispatchMetricMap, uniqueFilterAndAddTags, uniqueTags(WithSeen)) and StringMatch (NewStringMatch parsing of '!', "
+                   "trailing '*', 'regex:'; Match; MatchAny; MatchAnyMultiple) are run on a counter with a symbolic 1-byte name and 1..3 symbolic 1-byte tags (every "
+                   "byte value, so duplicates and collisions with static tags and patterns are frequent), 0..2 symbolic static tags and 0..3 filters whose pattern "
+                   "lists, pattern kinds (exact / prefix / inverted / regex), pattern bytes and drop-metric / drop-host flags are symbolic. The outcome is compared "
+                   "with a specification written from FILTERING.md with plain set operations: dropped iff some satisfied filter has drop-metric; otherwise the tags "
+                   "are (metric tags minus those matched by drop-tags of satisfied filters) plus the static tags not removed from this metric, duplicate-free; "
+                   "source cleared iff a satisfied filter has drop-host; payload unchanged. COLLISION: two series of one name whose tags may coincide after "
+                   "removal are combined without loss (counter sums, timer values and sampled counts, set union, newest timestamp).",
+    "bounds": {"quick": "1 filter with all four lists of 0..1 patterns (regex allowed in match-metrics/drop-tags), 1..2 tags, 1 static tag; 2 filters with one pattern each; no filter: 3 tags, 2 static tags",
+               "thorough": "adds 1 filter with lists of 0..2 patterns, 3 filters with one pattern each, 2 filters x 2 tags"},
+    "outside": ["regular-expression semantics: regexp.MustCompile/MatchString are an uninterpreted predicate of (pattern, string), congruent on equal strings", "names and tags longer than one byte (prefix matching is therefore exercised with 1-byte prefixes and the empty prefix only)"],
+    "assumptions": STUBS_COMMON + [MATH_NOTE],
+    "jobs": [
+        {"pkg": "./pkg/statsd", "harness": "pkg/statsd", "mode": "math",
+         "entries": {"quick": ["VerifC10_NoFilter_2_1", "VerifC10_NoFilter_3_2", "VerifC10_Filter1_1_1", "VerifC10_Filter1_2_1", "VerifC10_Filter1Re_1_1", "VerifC10_Filter2_1_0",
+                               "VerifC10_CollideCounter", "VerifC10_CollideTimer", "VerifC10_CollideSet", "VerifC10_Twin"],
+                     "thorough": ["VerifC10_NoFilter_2_1", "VerifC10_NoFilter_3_2", "VerifC10_Filter1_1_1", "VerifC10_Filter1_2_1", "VerifC10_Filter1Re_1_1", "VerifC10_Filter2_1_0",
+                                  "VerifC10_Filter2_2_1", "VerifC10_Filter3_1_0", "VerifC10_Filter1P2_2_1",
+                                  "VerifC10_CollideCounter", "VerifC10_CollideTimer", "VerifC10_CollideSet", "VerifC10_Twin"]},
+         "reach": {"VerifC10_Filter1_1_1": ["dropped", "forwarded", "host-cleared"], "VerifC10_CollideCounter": ["collided", "distinct"], "VerifC10_CollideSet": ["collided"]},
+         "twin": {"VerifC10_Twin": True},
+         "limits": {"quick": {"timeout": "900s"}, "thorough": {"timeout": "5400s"}}},
+    ],
+}
